@@ -164,3 +164,22 @@ func ForwardReachBlocks(b *ssa.BasicBlock) map[*ssa.BasicBlock]bool {
 	}
 	return seen
 }
+
+// InnermostLoopHeader returns the header of the innermost natural loop containing b (nil if none).
+func InnermostLoopHeader(b *ssa.BasicBlock) *ssa.BasicBlock {
+	var best *ssa.BasicBlock
+	for h := b; h != nil; h = h.Idom() {
+		isHeader := false
+		for _, p := range h.Preds {
+			if h.Dominates(p) && (p == b || ForwardReachBlocks(b)[p] || b == h) {
+				isHeader = true
+			}
+		}
+		if isHeader && (h == b || ForwardReachBlocks(b)[h]) {
+			if best == nil {
+				best = h
+			}
+		}
+	}
+	return best
+}
